@@ -14,7 +14,7 @@ TRUSTED = cc.TRUSTED + [
     "Server.Close/Shutdown); in the thorough tier the same schedules run under the Go race detector",
 ]
 ASSUMPTIONS = ["backends return once their reader fails", "races on memory the model does not name and anything inside crypto/tls or net are not covered"]
-RULE = ("accept probe: every sequence up to the tier's length over {connection, temporary error, permanent error} x every pair of "
+RULE = ("race detector: the harness built with -race replays several hundred conversations with early/late deliveries, chunked transfers, forced orders and the accept cases; any DATA RACE report in the package is a violation | accept probe with connections stuck in an implicit-TLS handshake: Close (racing with their registration) must end every one; | accept probe: every sequence up to the tier's length over {connection, temporary error, permanent error} x every pair of "
         "endings over {Close, Shutdown, none}; sched probe: every order of {aborted delivery completes, next transaction arrives, its delivery "
         "completes} for 2-3 overlapping chunked transfers (SMTP and LMTP), plus Close / Shutdown / QUIT / disconnect while a delivery is in "
         "flight; goroutines left behind are counted after each case. non-trivial = at least one accept outcome or one gated delivery")
@@ -90,9 +90,31 @@ def groups(tier, rng):
                 if tier == "quick" and n >= 3 and rng.random() < 0.6:
                     continue
                 acc.append("accept\t%s\t%s,%s" % (",".join(outs) or "-", e1, e2))
+    # connections that do not end by themselves (implicit TLS, the peer never starts the handshake): Close must end them —
+    # also the ones accepted an instant before it runs — and nothing may be left behind
+    hang = []
+    for n in range(1, 4):
+        for outs in itertools.product(["conn", "tlshang", "temp"], repeat=n):
+            if "tlshang" not in outs or outs.count("temp") > 1:
+                continue
+            for e1, e2 in (("close", "none"), ("close", "close"), ("close", "shutdown")):
+                for _ in range(1 if tier == "quick" else 5):
+                    hang.append("accept\t%s\t%s,%s" % (",".join(outs), e1, e2))
     return [Group("accept/outcome-sequences", acc, exhaustive=(tier == "thorough"), project=project, theorems=THEOREMS, monitor=False),
+            Group("accept/hanging-connections", hang, project=project, theorems=THEOREMS, monitor=False),
             Group("sched/delivery-orders", sched_cases(tier, rng), project=project, theorems=THEOREMS, monitor=False)]
 
 
 def replay_groups(path):
     return [Group("replay", [json.load(open(path))["case"]], project=project, theorems=THEOREMS, monitor=False)]
+
+
+def race_cases(tier, rng):
+    """conversations replayed under Go's race detector: deliveries that return early or late (LMTP goroutine, chunked
+    transfers, resets and closes while a delivery runs), the forced-order sched cases, and the accept cases"""
+    from vlib.props import convprops as P
+    out = P.data_convs("quick", rng, limits=(0, 1), lmtp_modes=((0, 0), (1, 0), (1, 1)))[:300 if tier == "quick" else 3000]
+    out += P.c05_cases("quick", rng)[:300 if tier == "quick" else 3000]
+    out += sched_cases(tier, rng)
+    out += ["accept\tconn,tlshang,conn\tclose,none", "accept\tconn,conn\tshutdown,close", "accept\ttlshang,tlshang\tclose,close"]
+    return out
